@@ -86,7 +86,11 @@ func H08_locked() {
 		case 6:
 			operr = s.RemoveAll()
 		case 7:
-			operr = s.AddHardCert(mwNewCert(1, 0, 1<<64-1, false), "hw")
+			if c, isCert := key.(*ssh.Certificate); isCert {
+				operr = s.AddHardCert(c, "hw") // a certificate the shim already holds
+			} else {
+				operr = s.AddHardCert(mwNewCert(1, 0, 1<<64-1, false), "hw")
+			}
 		case 8:
 			operr = s.Lock(pass)
 		case 9:
